@@ -36,12 +36,11 @@ VARIABLES free,     \* the pool of free ids, a FIFO (buffered channel)
           ip,       \* thread -> index of its current operation
           pc,       \* thread -> next step of that operation ("idle": about to start it; "done": program finished)
           loc,      \* thread -> locals of the operation in progress
-          results,  \* thread -> results of its finished operations: [r |-> "ok"|"err", req |-> index or 0]
-          hist      \* the schedule so far
-vars == <<free, table, reqs, closed, ip, pc, loc, results, hist>>
+          results   \* thread -> results of its finished operations: [r |-> "ok"|"err", req |-> index or 0]
+vars == <<free, table, reqs, closed, ip, pc, loc, results>>
 
 TableIds == {i \in Ids : table[i] # NoReq}
-NewReq(id, managed, owner, k) == [id |-> id, managed |-> managed, owner |-> owner, op |-> k, pend |-> <<>>, done |-> FALSE, failed |-> FALSE]
+NewReq(id, managed, owner, k) == [id |-> id, managed |-> managed, owner |-> owner, op |-> k, pend |-> <<>>, done |-> FALSE, failed |-> FALSE, ans |-> FALSE]
 CloseReq(r, failed) == IF r.done THEN r ELSE [r EXCEPT !.done = TRUE, !.failed = failed]
 Op(t) == Progs[t][ip[t]]
 First(o) == CASE o.op = "send" -> "borrow" [] o.op = "deliver" -> "lookup" [] o.op = "close" -> "cas"
@@ -55,7 +54,7 @@ Init == /\ free = [i \in 1..N |-> i]
         /\ pc = [t \in Threads |-> IF Progs[t] = <<>> THEN "done" ELSE First(Progs[t][1])]
         /\ loc = [t \in Threads |-> NoLoc]
         /\ results = [t \in Threads |-> <<>>]
-        /\ hist = <<>>
+        /\ PrintT(<<"INIT", ToJson(<<free, table, reqs, closed, ip, pc, loc, results>>)>>)
 
 \* thread t takes a step and parks at the gate that ends it (the step is named by pc[t], the gate by GateOf)
 Goto(t, l) ==
@@ -135,8 +134,9 @@ Unknown(t) ==
 Remove(t) ==
     /\ pc[t] = "remove"
     /\ table' = [table EXCEPT ![loc[t].id] = NoReq]
+    /\ reqs' = [reqs EXCEPT ![loc[t].req].ans = TRUE]       \* (ghost) its final response has arrived
     /\ Goto(t, "release")
-    /\ UNCHANGED <<free, reqs, closed, loc>>
+    /\ UNCHANGED <<free, closed, loc>>
 
 \* releaseStreamId (final frame of a managed request only); refused once the handler is closed
 Release(t) ==
@@ -187,6 +187,13 @@ ClosePool(t) ==
     /\ Return(t, "ok", 0)
     /\ UNCHANGED <<free, table, reqs, closed, loc>>
 
+\* the whole state (identifies a node of the graph) and what the harness can observe of it
+St == <<free, table, reqs, closed, ip, pc, loc, results>>
+Proj == [free |-> free, closed |-> closed, table |-> {<<i, table[i]>> : i \in TableIds},
+         reqs |-> [i \in 1..Len(reqs) |-> [id |-> reqs[i].id, managed |-> reqs[i].managed, pend |-> reqs[i].pend, done |-> reqs[i].done,
+                                            failed |-> reqs[i].failed, owner |-> reqs[i].owner, op |-> reqs[i].op]],
+         results |-> results, done |-> \A t \in Threads : pc[t] = "done"]
+
 Runnable(t) == pc[t] # "done" /\ (Setup \in Threads /\ t # Setup => pc[Setup] = "done")
 
 Next == \E t \in Threads :
@@ -194,11 +201,12 @@ Next == \E t \in Threads :
           /\ \/ Borrow(t) \/ Check(t) \/ Add(t) \/ FinishSend(t)
              \/ Lookup(t) \/ Unknown(t) \/ Remove(t) \/ Release(t) \/ Hand(t)
              \/ Cas(t) \/ Drain(t) \/ ClosePool(t)
-          \* the schedule: who stepped, where it parked (or what it returned), and the handler's shape afterwards
-          /\ hist' = Append(hist, [t |-> t, k |-> ip[t], s |-> pc[t],
-                                   at |-> IF ip'[t] # ip[t] THEN "ret" ELSE GateOf(pc[t]),
-                                   r |-> IF ip'[t] # ip[t] THEN results'[t][ip[t]].r ELSE "",
-                                   free |-> free', tab |-> {i \in Ids : table'[i] # NoReq}, closed |-> closed'])
+          \* every transition is printed: the harness walks the graph (all schedules, or a sample that covers every
+          \* edge) and forces each walk onto real goroutines
+          /\ PrintT(<<"EDGE", ToJson([from |-> St, to |-> St', t |-> t, k |-> ip[t], s |-> pc[t],
+                                      at |-> IF ip'[t] # ip[t] THEN "ret" ELSE GateOf(pc[t]),
+                                      r |-> IF ip'[t] # ip[t] THEN results'[t][ip[t]].r ELSE "",
+                                      obs |-> Proj'])>>)
 
 Spec == Init /\ [][Next]_vars
 
@@ -212,8 +220,10 @@ TypeOK == /\ \A i \in 1..Len(free) : free[i] \in 1..N
 \* the requests handed to callers (indices into reqs) by sends that returned ok
 AcceptedIdx == UNION {{results[t][k].req : k \in 1..Len(results[t])} : t \in Threads} \ {0}
 
-\* C09: no two accepted, unanswered requests carry the same id; managed ids lie in 1..N
-UniqueAccepted == \A a, b \in AcceptedIdx : a # b /\ ~reqs[a].done /\ ~reqs[b].done => reqs[a].id # reqs[b].id
+\* C09: no two accepted, unanswered requests carry the same id (a request is answered from the moment the receive
+\* loop has unregistered it for its final frame: the id is assignable again); managed ids lie in 1..N
+Unanswered(i) == ~reqs[i].done /\ ~reqs[i].ans
+UniqueAccepted == \A a, b \in AcceptedIdx : a # b /\ Unanswered(a) /\ Unanswered(b) => reqs[a].id # reqs[b].id
 InRange == \A i \in 1..Len(reqs) : reqs[i].managed => reqs[i].id \in 1..N
 \* C09: never more than N registered
 Bounded == Cardinality(TableIds) <= N
@@ -238,12 +248,4 @@ OnceOnly == /\ \A i, j \in 1..Len(reqs) : i # j => Frames(i) \cap Frames(j) = {}
 Delivered == \A t \in Threads : \A k \in 1..Len(results[t]) :
                Progs[t][k].op = "deliver" /\ results[t][k].r = "ok" => \E i \in 1..Len(reqs) : <<t, k>> \in Frames(i)
 
-\* state handed to the harness after each finished schedule
-Proj == [free |-> free, closed |-> closed, table |-> [i \in TableIds |-> table[i]],
-         reqs |-> [i \in 1..Len(reqs) |-> [id |-> reqs[i].id, managed |-> reqs[i].managed, pend |-> reqs[i].pend, done |-> reqs[i].done,
-                                            failed |-> reqs[i].failed, owner |-> reqs[i].owner, op |-> reqs[i].op]],
-         results |-> results]
-Emit == AllDone => PrintT(<<"SCHED", ToJson([h |-> hist, s |-> Proj])>>)
-\* quotient for model checking bigger programs: the schedule itself is not state
-View == <<free, table, reqs, closed, ip, pc, loc, results>>
 =============================================================================
